@@ -129,10 +129,32 @@ func InitExportingProcess(input ExporterInput) (*ExportingProcess, error) {
 			if !ok {
 				return nil, fmt.Errorf("failed to parse root certificate")
 			}
+			// pion/dtls only checks the server certificate against ServerName when it is a
+			// DNS name: with an empty ServerName or an IP address, any certificate issued by
+			// a trusted CA is accepted. Like tls.Dial, default to the host used to contact
+			// the collector, and verify the name (or address) ourselves.
+			serverName := tlsConfig.ServerName
+			if serverName == "" {
+				host, _, err := net.SplitHostPort(input.CollectorAddress)
+				if err != nil {
+					return nil, err
+				}
+				serverName = host
+			}
 			config := &dtls.Config{
 				RootCAs:              roots,
 				ExtendedMasterSecret: dtls.RequireExtendedMasterSecret,
 				ServerName:           tlsConfig.ServerName,
+				VerifyPeerCertificate: func(rawCerts [][]byte, _ [][]*x509.Certificate) error {
+					if len(rawCerts) == 0 {
+						return fmt.Errorf("collector did not present a certificate")
+					}
+					cert, err := x509.ParseCertificate(rawCerts[0])
+					if err != nil {
+						return err
+					}
+					return cert.VerifyHostname(serverName)
+				},
 			}
 			udpAddr, err := net.ResolveUDPAddr(input.CollectorProtocol, input.CollectorAddress)
 			if err != nil {
